@@ -28,6 +28,13 @@ class ToolError(Exception):
     pass
 
 
+class CodeCrash(Exception):
+    """the recorder process was killed by a fatal signal raised inside the code under test"""
+    def __init__(self, engine, rc, stderr, args):
+        super().__init__(f"recorder {engine} died with exit status {rc}")
+        self.engine, self.rc, self.stderr, self.rec_args = engine, rc, stderr, args
+
+
 def log(*a):
     print(*a, flush=True)
 
@@ -122,6 +129,12 @@ def record(engine, prefix, shards, args, timeout=3600):
     p = subprocess.run(cmd, stdout=subprocess.PIPE, stderr=subprocess.PIPE, text=True)
     if p.returncode != 0:
         log(p.stdout[-2000:], p.stderr[-2000:])
+        # the recorder PROCESS died of a fatal signal (Rust stack overflow aborts with SIGABRT; SIGSEGV, SIGBUS, SIGILL, SIGFPE):
+        # the code under test took the process down, which a panic (caught, logged as data) never does and which never
+        # happens on the unchanged tree. That is a verdict (NoCrash), not a tool error. Kills (OOM) and time-outs stay tool errors.
+        rc = p.returncode if p.returncode >= 0 else 128 - p.returncode
+        if rc in (132, 134, 135, 136, 139):
+            raise CodeCrash(engine, rc, (p.stderr or "")[-1500:], [str(a) for a in args])
         raise ToolError(f"qxv record {engine} failed rc={p.returncode}")
     summ = None
     for line in p.stdout.splitlines():
